@@ -23,7 +23,8 @@ RULE = (
 ASSUMPTIONS = ["patterns with '.' or '..' components and absolute patterns are not enumerated"]
 
 TOKENS = ["a", "b", ".", "/", "*", "?", "[ab]", "[!a]", "**", "${*n}", "${*m}"]
-SUBS = [{}, {"n": "?*"}, {"n": "[ab]", "m": "a*"}, {"n": "?"}]
+# an explicit "*" must behave exactly like the default of a named wildcard
+SUBS = [{}, {"n": "?*"}, {"n": "*"}, {"n": "[ab]", "m": "a*"}, {"n": "?"}, {"n": "***", "m": "*"}]
 NAMES = ["a", "b", "ab", ".a"]
 
 
@@ -150,7 +151,7 @@ def jobs(tier, seed):
     pats = patterns(L)
     out = []
     chunk = 60 if tier == "quick" else 150
-    subsets = SUBS[:2] if tier == "quick" else SUBS
+    subsets = SUBS[:3] if tier == "quick" else SUBS
     for si, subs in enumerate(subsets):
         for lo in range(0, len(pats), chunk):
             batch = [p for p in pats[lo : lo + chunk] if si == 0 or names_in(p)]
